@@ -101,6 +101,10 @@ def c15_witnesses(extract):
             for n in re.findall(r"/- (.*?) -/", m.group(1)):
                 if n not in exp and n != "memory":
                     out.append("the tool accepts an import named `%s` from the API namespace; no table of the ABI and no provider export has it" % n)
+            mm_ = re.search(r"def toolAcceptsOtherModuleNames[^\n]*:= \[(.*?)\]\n", txt, re.S)
+            if mm_:
+                for n in re.findall(r"/- (.*?) -/", mm_.group(1)):
+                    out.append("the tool accepts imports from the module `%s`" % n)
             md = re.search(r"def toolAcceptsDupBadSig[^\n]*:= \[(.*?)\]\n", txt, re.S)
             if md:
                 for n in re.findall(r"/- (.*?) -/", md.group(1)):
